@@ -162,6 +162,85 @@ theorem trimSpace_padded (c post : Bytes)
       rw [trimRev_ascii_head z zs g1 g2, ← hc]
       simp
 
+/-! ### trailing blanks on arbitrary lines -/
+
+theorem isSp2_ascii {b : UInt8} (h : b.toNat < 128) : isSp2 b = false := by
+  simp [isSp2, ← UInt8.toNat_inj]; omega
+
+theorem isSp3_ascii_third (a b : UInt8) {c : UInt8} (h : c.toNat < 128) : isSp3 a b c = false := by
+  have h1 : (c == 0x80) = false := by simp [← UInt8.toNat_inj]; omega
+  have h2 : (0x80 ≤ c) = False := by simp [UInt8.le_iff_toNat_le]; omega
+  have h3 : (c == 0xA8) = false := by simp [← UInt8.toNat_inj]; omega
+  have h4 : (c == 0xA9) = false := by simp [← UInt8.toNat_inj]; omega
+  have h5 : (c == 0xAF) = false := by simp [← UInt8.toNat_inj]; omega
+  have h6 : (c == 0x9F) = false := by simp [← UInt8.toNat_inj]; omega
+  simp [isSp3, h1, h2, h3, h4, h5, h6]
+
+/-- appending one ASCII byte does not change what the left trim removes -/
+theorem trimLeft_snoc_ascii (l : Bytes) (x : UInt8) (hx : x.toNat < 128) (hs : isAsciiSpace x = true) :
+    trimLeft (l ++ [x]) = if trimLeft l = [] then [] else trimLeft l ++ [x] := by
+  fun_induction trimLeft l with
+  | case1 => simp [trimLeft, hs]
+  | case2 a rest h ih =>
+    have : trimLeft (a :: rest ++ [x]) = trimLeft (rest ++ [x]) := by
+      conv => lhs; unfold trimLeft
+      simp [h]
+    rw [this, ih]
+  | case3 a h =>
+    have : trimLeft [a, x] = [a, x] := by
+      unfold trimLeft
+      simp [h, isSp2_ascii hx]
+    simp [this]
+  | case4 a h b r hc ih =>
+    have : trimLeft (a :: b :: r ++ [x]) = trimLeft (r ++ [x]) := by
+      conv => lhs; unfold trimLeft
+      simp [h, hc]
+    rw [this, ih]
+  | case5 a h b hc =>
+    have : trimLeft [a, b, x] = [a, b, x] := by
+      unfold trimLeft
+      simp [h, hc, isSp3_ascii_third a b hx]
+    simp [this]
+  | case6 a h b hc c r' h3 ih =>
+    have : trimLeft (a :: b :: c :: r' ++ [x]) = trimLeft (r' ++ [x]) := by
+      conv => lhs; unfold trimLeft
+      simp [h, hc, h3]
+    rw [this, ih]
+  | case7 a h b hc c r' h3 =>
+    have : trimLeft (a :: b :: c :: (r' ++ [x])) = a :: b :: c :: (r' ++ [x]) := by
+      conv => lhs; unfold trimLeft
+      simp [h, hc, h3]
+    simp [this]
+
+/-- a trailing ASCII blank never survives `bytes.TrimSpace`, whatever the line is -/
+theorem trimSpace_snoc_space (l : Bytes) (x : UInt8) (hs : isAsciiSpace x = true) :
+    trimSpace (l ++ [x]) = trimSpace l := by
+  unfold trimSpace
+  rw [trimLeft_snoc_ascii l x (space_lt hs) hs]
+  by_cases h : trimLeft l = []
+  · simp [h]
+  · simp only [h, if_false, trimRight]
+    have := trimRev_spaces [x] (by simpa using hs) (trimLeft l).reverse
+    simp at this ⊢
+    rw [this]
+
+theorem dropCR_cases (l : Bytes) : dropCR l = l ∨ ∃ t, l = 13 :: t ∧ dropCR l = t := by
+  unfold dropCR
+  split
+  · exact .inr ⟨_, rfl, rfl⟩
+  · exact .inl rfl
+
+/-- dropping the CR before the LF does not change the trimmed line -/
+theorem trimSpace_stripCR (l : Bytes) : trimSpace (stripCR l) = trimSpace l := by
+  unfold stripCR
+  rcases dropCR_cases l.reverse with e | ⟨t, e1, e2⟩
+  · rw [e]; simp
+  · rw [e2]
+    have : l = t.reverse ++ [13] := by
+      have := congrArg List.reverse e1
+      simpa using this
+    rw [this, trimSpace_snoc_space _ 13 (by decide)]
+
 /-! ### blank removal -/
 
 theorem removeSpaces_single (b : UInt8) : removeSpaces [b] = if isAsciiSpace b then [] else [b] := by
